@@ -40,8 +40,8 @@ def grouped_ref(ref, group, insert):
     return Ref(newdims, newlabels, cells)
 
 
-def flatten_case(ctx, shape, group, form='tuple', insert=None, reverse=False, lkinds=None, names=True):
-    a, ref, attrs = _build(ctx, shape, lkinds=lkinds)
+def flatten_case(ctx, shape, group, form='tuple', insert=None, reverse=False, lkinds=None, names=True, dimnames=None):
+    a, ref, attrs = _build(ctx, shape, lkinds=lkinds, dims=dimnames)
     dims = list(ref.dims)
     # member axes carry their own metadata: "unflatten restores the member axes exactly"
     for i, ax in enumerate(a.axes):
@@ -167,9 +167,9 @@ def reshape_case(ctx, shape, target, lkinds=None, transpose=True):
     return ctx.done(ctx.AND(*oks), ctx.observe(res))
 
 
-def tuple_reduce(ctx, shape, group, func):
+def tuple_reduce(ctx, shape, group, func, dimnames=None):
     """reducing over a tuple of dimensions equals reducing over the flattened group"""
-    a, ref, attrs = _build(ctx, shape)
+    a, ref, attrs = _build(ctx, shape, dims=dimnames)
     dims = list(ref.dims)
     names = tuple(dims[i] for i in group)
     r1 = ctx.call(lambda: getattr(a, func)(axis=names))
@@ -240,4 +240,11 @@ def templates():
             if func.startswith('arg') and len(sh) == 4:
                 continue
             add('tuple-%s-%s-g%s' % (func, 'x'.join(map(str, sh)), ''.join(map(str, group))), 'tuple_reduce', cost=0.3 if not func.startswith('arg') else 15, shape=sh, group=group, func=func)
+    # dimension names that are not in alphabetical order (a set of names has no order of its own: the array's order counts)
+    for names in (['t', 'y', 'x'], ['time', 'lat', 'lon']):
+        tag = ''.join(n[0] for n in names)
+        for group, form in (([0, 1], 'set'), ([1, 2], 'set'), ([0, 2], 'set'), ([2, 0], 'tuple'), ([1, 0], 'list'), ([0, 1, 2], 'none')):
+            add('flatten-dimnames-%s-%s-g%s' % (tag, form, ''.join(map(str, group))), 'flatten_case', cost=0.5, shape=[2, 3, 2], group=group, form=form, dimnames=names)
+        for func in ('mean', 'max', 'cumsum'):
+            add('tuple-dimnames-%s-%s' % (tag, func), 'tuple_reduce', cost=0.5, shape=[2, 3, 2], group=[2, 0], func=func, dimnames=names)
     return ts
